@@ -81,7 +81,7 @@ func compileJudge(root string, cases map[string]GCase) []Judgement {
 			continue
 		}
 		seen[name+key] = true
-		out = append(out, Judgement{Property: "C01", Case: name, Key: key, What: l})
+		out = append(out, Judgement{Property: "C01", Case: cases[name].Name, Key: key, What: l})
 	}
 	// gofmt-clean
 	cmd = exec.Command("gofmt", "-l", ".")
@@ -97,7 +97,7 @@ func compileJudge(root string, cases map[string]GCase) []Judgement {
 		}
 		name := strings.Split(filepath.ToSlash(l), "/")[0]
 		if _, ok := cases[name]; ok {
-			out = append(out, Judgement{Property: "C01", Case: name, Key: "C01|not-gofmt-clean", What: l + " is not gofmt-clean"})
+			out = append(out, Judgement{Property: "C01", Case: cases[name].Name, Key: "C01|not-gofmt-clean", What: l + " is not gofmt-clean"})
 		}
 	}
 	return out
